@@ -3,7 +3,7 @@
 usage: run_stable.py [repo_root]   (default /repo). exit 0 iff all stable tests pass."""
 import json, collections, subprocess, sys, os, concurrent.futures, fcntl
 # one suite at a time on this machine (the suite is CPU-hungry and has timing-sensitive tests)
-_lock = open('/tmp/stable_suite.lock', 'w'); fcntl.flock(_lock, fcntl.LOCK_EX)
+_lock = open('/tmp/stable_suite.inner.lock', 'w'); fcntl.flock(_lock, fcntl.LOCK_EX)
 root = sys.argv[1] if len(sys.argv) > 1 else '/repo'
 b = json.load(open('/root/.vp/BASELINE.json'))
 d = collections.defaultdict(list)
